@@ -25,7 +25,7 @@ pub fn def() -> PropDef {
     PropDef {
         id: "C12",
         level: "model_checking",
-        rule: "every sequence of length <= d over {local insert a / ab, local delete a, remote insert valid / superseded / invalid signature, next message of a reconciliation session with a real peer replica (local writes may fall between two messages of the session and obsolete entries the peer sends later), subscribe, unsubscribe i, drop receiver i, set download policy p, open one more handle, release one handle (the last release closes the document and ends all subscriptions)} through the real SyncHandle, starting with three subscribers (one registered by open, two by subscribe) and up to four; after every acknowledged request every live receiver is drained and compared with the exact expected event list of the reference model (one event per applied entry, in application order, local vs remote with peer and content status as sent, should_download per policy); get_state().subscribers must equal the model; non-trivial = sequences in which an event is delivered to at least one subscriber",
+        rule: "a subscriber that is alive but slow (one-slot channel, no read for 2.5 s quick / 12 s thorough while three entries are written) gets all three events in order, stays subscribed and does not affect a fast subscriber; every sequence of length <= d over {local insert a / ab, local delete a, remote insert valid / superseded / invalid signature, next message of a reconciliation session with a real peer replica (local writes may fall between two messages of the session and obsolete entries the peer sends later), subscribe, unsubscribe i, drop receiver i, set download policy p, open one more handle, release one handle (the last release closes the document and ends all subscriptions)} through the real SyncHandle, starting with three subscribers (one registered by open, two by subscribe) and up to four; after every acknowledged request every live receiver is drained and compared with the exact expected event list of the reference model (one event per applied entry, in application order, local vs remote with peer and content status as sent, should_download per policy); get_state().subscribers must equal the model; non-trivial = sequences in which an event is delivered to at least one subscriber",
         assumptions: &["events are compared after the request that causes them has been acknowledged (the actor sends events before it replies), so draining with try_recv is race-free"],
         bound: |t| match t {
             Tier::Quick => json!({"depth": 4, "alphabet": 21}),
@@ -486,8 +486,119 @@ fn exec(seq: &[Ev]) -> Option<(Bad, String, bool)> {
     Some((bad, rendering, delivered_any))
 }
 
+/// A subscriber that is alive but slow: its channel holds one event and it does not read for
+/// `wait_ms`, while three entries are written (the requests are queued; the actor waits for room
+/// in the channel). Afterwards it reads: it must get all three events, in order, and still be
+/// subscribed; a second, fast subscriber must get its three events too.
+fn slow_subscriber(wait_ms: u64) -> Bad {
+    set_clock(NOW);
+    let ns = ns_id(0);
+    let mut bad: Bad = vec![];
+    let mut store = Store::memory();
+    store.import_namespace(Capability::Write(ns_secret(0))).expect("import");
+    store.import_author(author(0)).expect("author");
+    let h = SyncHandle::spawn(store, Some(status_cb(false)), "c12-slow".into());
+    let (slow_tx, slow_rx) = async_channel::bounded(1);
+    let (fast_tx, fast_rx) = async_channel::unbounded();
+    block_on_park(h.open(ns, OpenOpts::default().sync().subscribe(slow_tx))).expect("open");
+    block_on_park(h.subscribe(ns, fast_tx)).expect("subscribe");
+    let keys: [&[u8]; 3] = [b"s1", b"s2", b"s3"];
+    let (hash, len) = Val::X.hash_len();
+    let waker = std::task::Waker::noop();
+    let mut cx = std::task::Context::from_waker(waker);
+    let mut futs: Vec<std::pin::Pin<Box<dyn std::future::Future<Output = anyhow::Result<()>> + '_>>> = keys
+        .iter()
+        .map(|k| Box::pin(h.insert_local(ns, author(0).id(), Bytes::copy_from_slice(k), hash, len)) as std::pin::Pin<Box<dyn std::future::Future<Output = anyhow::Result<()>> + '_>>)
+        .collect();
+    let mut done = [false; 3];
+    for (f, d) in futs.iter_mut().zip(done.iter_mut()) {
+        if let std::task::Poll::Ready(r) = f.as_mut().poll(&mut cx) {
+            *d = true;
+            if r.is_err() {
+                bad.push(("reply_matches_application", json!({"slow_subscriber": true}), "insert failed".into()));
+            }
+        }
+    }
+    std::thread::sleep(std::time::Duration::from_millis(wait_ms));
+    // now the slow subscriber reads
+    let mut slow_got: Vec<Vec<u8>> = vec![];
+    let start = std::time::Instant::now();
+    while start.elapsed() < std::time::Duration::from_secs(20) {
+        while let Ok(ev) = slow_rx.try_recv() {
+            if let Event::LocalInsert { entry, .. } = ev {
+                slow_got.push(entry.key().to_vec());
+            }
+        }
+        let mut pending = false;
+        for (f, d) in futs.iter_mut().zip(done.iter_mut()) {
+            if !*d {
+                match f.as_mut().poll(&mut cx) {
+                    std::task::Poll::Ready(_) => *d = true,
+                    std::task::Poll::Pending => pending = true,
+                }
+            }
+        }
+        if !pending && slow_got.len() >= 3 {
+            break;
+        }
+        if !pending && start.elapsed() > std::time::Duration::from_millis(500) && slow_rx.is_empty() {
+            // all requests answered and nothing more is coming
+            break;
+        }
+        std::thread::sleep(std::time::Duration::from_millis(1));
+    }
+    drop(futs);
+    let mut fast_got: Vec<Vec<u8>> = vec![];
+    while let Ok(ev) = fast_rx.try_recv() {
+        if let Event::LocalInsert { entry, .. } = ev {
+            fast_got.push(entry.key().to_vec());
+        }
+    }
+    let want: Vec<Vec<u8>> = keys.iter().map(|k| k.to_vec()).collect();
+    let show = |v: &Vec<Vec<u8>>| v.iter().map(|k| String::from_utf8_lossy(k).to_string()).collect::<Vec<_>>().join(",");
+    if slow_got != want {
+        bad.push((
+            "events_equal_model",
+            json!({"slow_subscriber": true, "kind": "missing"}),
+            format!("a subscriber that did not read for {wait_ms} ms got the events [{}] for the applied entries [{}]", show(&slow_got), show(&want)),
+        ));
+    }
+    if fast_got != want {
+        bad.push((
+            "events_equal_model",
+            json!({"slow_subscriber": true, "kind": "other subscriber affected"}),
+            format!("the fast subscriber next to a slow one got [{}] for the applied entries [{}]", show(&fast_got), show(&want)),
+        ));
+    }
+    match block_on_park(h.get_state(ns)) {
+        Ok(st) if st.subscribers == 2 => {}
+        other => bad.push((
+            "subscribers_equal_model",
+            json!({"slow_subscriber": true}),
+            format!("after the slow subscriber caught up: {:?}, expected 2 subscribers", other.map(|s| s.subscribers).map_err(|e| e.to_string())),
+        )),
+    }
+    let _ = block_on_park(h.shutdown());
+    bad
+}
+
 fn run(ctx: &Ctx, report: &mut Report) {
     crate::util::silence_panics();
+    if ctx.shard == 3 % ctx.of {
+        let wait_ms = if ctx.quick() { 2500 } else { 12000 };
+        report.evaluations += 1;
+        report.traces += 1;
+        report.nontrivial += 1;
+        let case = json!({"slow_subscriber_ms": wait_ms});
+        match catch(|| slow_subscriber(wait_ms)) {
+            Err(p) => report.violation("no_panic", json!({"slow_subscriber": true}), case, format!("panic: {p}"), 0),
+            Ok(bad) => {
+                for (o, w, d) in bad {
+                    report.violation(o, w, case.clone(), d, 0);
+                }
+            }
+        }
+    }
     let alpha = alphabet();
     let depth = if ctx.quick() { 4 } else { 5 };
     let mut ordinal = 0u64;
@@ -533,6 +644,15 @@ fn run(ctx: &Ctx, report: &mut Report) {
 }
 
 fn replay(case: &Value) -> anyhow::Result<(bool, String)> {
+    if let Some(ms) = case.get("slow_subscriber_ms").and_then(|m| m.as_u64()) {
+        return match catch(|| slow_subscriber(ms)) {
+            Err(p) => Ok((true, format!("panic: {p}"))),
+            Ok(bad) => {
+                let out: String = bad.iter().map(|(o, _, d)| format!("FAILED {o}: {d}\n")).collect();
+                Ok((!bad.is_empty(), format!("slow subscriber ({ms} ms)\n{out}")))
+            }
+        };
+    }
     let seq: Vec<Ev> = serde_json::from_value(case["seq"].clone())?;
     match catch(|| exec(&seq)) {
         Err(p) => Ok((true, format!("panic: {p}"))),
